@@ -19,5 +19,23 @@ for n in $NAMES; do
   echo "$n rc=$rc $v"
   rm -f "$log"
 done
-{ echo "# Seeded changes × checks ($TIER tier, $(date -u +%F))"; echo; cat "$TMP"; } > "$OUT"; rm -f "$TMP"
+# merge with the rows already recorded for seeds that were not re-run
+/venv/bin/python - "$OUT" "$TMP" <<'PY'
+import sys, re
+out, tmp = sys.argv[1:3]
+rows = {}
+def load(p):
+    try:
+        for l in open(p):
+            m = re.match(r"\| (C\d+_\w+) \|", l)
+            if m: rows[m.group(1)] = l.rstrip("\n")
+    except FileNotFoundError:
+        pass
+load(out); load(tmp)
+with open(out, "w") as f:
+    f.write("# Seeded changes x checks (each row: last run of harness/seedmatrix.sh for that seed)\n\n")
+    f.write("| seed | property | applies | exit | verdict | first violation |\n|---|---|---|---|---|---|\n")
+    for k in sorted(rows): f.write(rows[k] + "\n")
+PY
+rm -f "$TMP"
 git -C /repo status --short | grep -v '^??' && echo "WARNING: /repo not clean"
